@@ -45,9 +45,10 @@ type fdef struct {
 
 var schemaFields = map[string][]fdef{
 	"Query": {{"as", "A", true, ""}, {"a", "A", false, "i"}, {"us", "U", true, ""}, {"u1", "U", false, ""}, {"bs", "B", true, ""}, {"n", "Int", false, ""}, {"ds", "D", true, ""}},
-	"Mutation": {{"touchA", "A", false, "i"}},
+	"Mutation": {{"touchA", "A", false, "i"}, {"touchP", "P", false, "i"}},
+	"P":     {{"n", "Int", false, ""}, {"a", "A", false, ""}},
 	"D":     {{"id", "Int", false, ""}, {"tags", "String", true, ""}, {"v", "Int", false, ""}},
-	"A":     {{"id", "Int", false, ""}, {"name", "String", false, ""}, {"tag", "String", false, "x"}, {"score", "Int", false, ""}, {"b", "B", false, ""}, {"bs", "B", true, ""}, {"u", "U", false, ""}},
+	"A":     {{"id", "Int", false, ""}, {"name", "String", false, ""}, {"tag", "String", false, "x"}, {"score", "Int", false, ""}, {"b", "B", false, ""}, {"bs", "B", true, ""}, {"u", "U", false, ""}, {"nb", "B", false, ""}},
 	"B":     {{"id", "Int", false, ""}, {"val", "Int", false, ""}, {"a", "A", false, ""}, {"cs", "C", true, ""}, {"label", "String", false, "p"}},
 	"C":     {{"id", "Int", false, ""}, {"w", "Int", false, ""}},
 	"F":     {{"id", "Int", false, ""}, {"tags", "String", true, ""}},
@@ -63,11 +64,12 @@ func fieldDef(typ, name string) fdef {
 }
 
 func isObj(t string) bool {
-	return t == "A" || t == "B" || t == "C" || t == "U" || t == "D" || t == "F"
+	return t == "A" || t == "B" || t == "C" || t == "U" || t == "D" || t == "F" || t == "P"
 }
 
 type gen struct {
 	noD    bool // the federated schema has no D type
+	nb     bool // select the non-null field A.nb as well
 	c      *runner.Ctx
 	w      *world
 	named  []*qfrag // named fragment definitions
@@ -206,6 +208,9 @@ func (g *gen) genSelWith(typ string, depth int, plain bool) *qsel {
 	for tries := 0; ; tries++ {
 		f = fields[g.c.Choose(len(fields), "field")]
 		if g.noD && f.typ == "D" {
+			f = fields[0]
+		}
+		if !g.nb && f.name == "nb" {
 			f = fields[0]
 		}
 		if !isObj(f.typ) || depth < 4 || tries > 8 {
@@ -398,7 +403,7 @@ func (e *evaluator) objectSels(typ string, id int64, sels []*qsel, p []string) i
 		}
 		out[k] = e.field(typ, id, first, merged, mergedUnion, path(p, k))
 	}
-	if typ != "Query" && typ != "Mutation" {
+	if typ != "Query" && typ != "Mutation" && typ != "P" {
 		out["__key"] = id
 	}
 	return out
@@ -411,7 +416,7 @@ func (e *evaluator) field(typ string, id int64, s *qsel, merged []*qsel, unionSe
 	failID := id
 	if typ == "Query" || typ == "Mutation" {
 		failID = 0
-		if s.name == "a" || s.name == "touchA" {
+		if s.name == "a" || s.name == "touchA" || s.name == "touchP" {
 			failID = s.argV
 		}
 	}
@@ -468,6 +473,15 @@ func (e *evaluator) field(typ string, id int64, s *qsel, merged []*qsel, unionSe
 			return nil
 		}
 		return one("A", int(s.argV))
+	case "Mutation.touchP":
+		return e.objectSels("P", s.argV, merged, p)
+	case "P.n":
+		return 7000 + id
+	case "P.a":
+		if id < 0 || int(id) >= w.nA {
+			return nil
+		}
+		return one("A", int(id))
 	case "Query.bs":
 		return list("B", w.rootBs)
 	case "Query.ds":
@@ -510,9 +524,19 @@ func (e *evaluator) field(typ string, id int64, s *qsel, merged []*qsel, unionSe
 		return w.scoreVal(id)
 	case "A.b":
 		return one("B", w.aB[id-100])
+	case "A.nb":
+		if w.aB[id-100] < 0 {
+			e.fails = append(e.fails, failRec{path: p, field: logical, id: failID, f: failure{kind: 5}})
+			return nil
+		}
+		return one("B", w.aB[id-100])
 	case "A.bs":
 		return list("B", w.aBs[id-100])
 	case "A.u":
+		if w.badU[id] && w.aU[id-100].typ != "" {
+			e.fails = append(e.fails, failRec{path: p, field: logical, id: failID, f: failure{kind: 6}})
+			return nil
+		}
 		return e.union(w.aU[id-100], unionSets, p)
 	case "B.val":
 		return w.bs[id-200].Val
@@ -567,3 +591,33 @@ func (e *evaluator) union(r ref, sets []*qset, p []string) interface{} {
 	return e.objectSels(r.typ, oid, sels, p)
 }
 
+
+
+// doomedQuery draws a request that is well-formed GraphQL but cannot be
+// executed: a @skip / @include whose "if" argument is missing, null, unset or
+// not a boolean. The only acceptable outcome is an error answer.
+func doomedQuery(c *runner.Ctx) (string, map[string]interface{}) {
+	texts := []string{
+		`query Q($v: Boolean) { n @skip(if: $v) }`,
+		`query Q($v: Boolean) { n ... on Query @include(if: $v) { al_n: n } }`,
+		`query Q($v: Boolean) { a(i: 0) { id @skip(if: $v) } }`,
+		`query Q($v: Boolean) { a(i: 0) { id ... on A @include(if: $v) { name } } }`,
+		"query Q($v: Boolean) { n ...FD @skip(if: $v) }\nfragment FD on Query { al_n: n }",
+		`{ n @skip(if: "yes") }`,
+		`{ n @skip }`,
+		`{ n @include(if: 1) }`,
+		`{ a(i: 0) { id @include(if: [true]) } }`,
+		`{ n @skip(if: {a: true}) }`,
+	}
+	k := c.Choose(len(texts), "doomed-query")
+	vars := map[string]interface{}{}
+	switch c.Choose(4, "doomed-vars") {
+	case 1:
+		vars["v"] = nil
+	case 2:
+		vars["v"] = "true"
+	case 3:
+		vars["v"] = map[string]interface{}{"if": true}
+	}
+	return texts[k], vars
+}
